@@ -266,17 +266,17 @@ Section Inv5.
     rewrite (B x' eq_refl). apply Inv5_add_job; [exact A|]. exists x. split; [reflexivity|exact G].
   Qed.
 
-  (* ---- is_sensor: the presentation request is addressed to sid, which must be a node id ---- *)
+  (* ---- is_sensor: the presentation request is addressed to sid, and is only made when sid is a
+     node id (`sensorid in range(BROADCAST_ID + 1)`), for ANY sid ---- *)
   Lemma is_sensor5 g sid cid g1 b : cfgv v g -> Inv orc g -> Inv5 g ->
-    (v_ge20 v = true -> zhas sid (g_sensors g) = false -> 0 <= sid <= 255) ->
     is_sensor g sid cid = Ok (g1, b) -> Inv5 g1.
   Proof.
-    intros C I I5 R H. rewrite (is_sensor_closed clock v g sid cid C) in H.
+    intros C I I5 H. rewrite (is_sensor_closed clock v g sid cid C) in H.
     destruct (guard_ok clock g sid cid); [inversion H; subst; exact I5|].
+    destruct (node_id_ok sid) eqn:NK; cbn [andb] in H; [|inversion H; subst; exact I5].
     destruct (v_ge20 v) eqn:GE; inversion H; subst; [|exact I5].
     apply deliver5; try assumption. apply good_presentation_request; [exact GE|].
-    destruct (zhas sid (g_sensors g)) eqn:Z; [|apply R; reflexivity].
-    apply zhas_true in Z as [nd G]. destruct (get_node5 g sid nd I5 G) as (RR & _). exact RR.
+    apply node_id_ok_iff. exact NK.
   Qed.
   (* ---- handlers ---- *)
   Definition h5 (r : res (gw * option msg)) : Prop :=
@@ -305,8 +305,8 @@ Section Inv5.
     intros C I I5 W V Ty g1 rep. unfold handle_set.
     destruct (is_sensor g (m_node m) (Some (m_child m))) as [[g0 b]|e] eqn:IS; cbn [bind]; [|discriminate].
     pose proof (vld_node_range m V) as RN.
-    assert (I0 : Inv5 g0) by (apply (is_sensor5 g _ _ _ _ C I I5 (fun _ _ => RN) IS)).
-    destruct (is_sensor_eff orc clock v _ _ _ _ _ C I IS) as (B & _ & GG).
+    assert (I0 : Inv5 g0) by (apply (is_sensor5 g _ _ _ _ C I I5 IS)).
+    destruct (is_sensor_eff orc clock v _ _ _ _ _ C I RN IS) as (B & _ & GG).
     destruct b; cbn [negb].
     - specialize (GG eq_refl). subst g0. symmetry in B. destruct (guard_get clock _ _ _ B) as (nd & G & _). rewrite G.
       pose proof (get_node_ok orc g _ _ I G) as [K _]. simpl in K.
@@ -350,8 +350,8 @@ Section Inv5.
     intros C I I5 W V Ty g1 rep. unfold handle_req.
     destruct (is_sensor g (m_node m) (Some (m_child m))) as [[g0 b]|e] eqn:IS; cbn [bind]; [|discriminate].
     pose proof (vld_node_range m V) as RN.
-    assert (I0 : Inv5 g0) by (apply (is_sensor5 g _ _ _ _ C I I5 (fun _ _ => RN) IS)).
-    destruct (is_sensor_eff orc clock v _ _ _ _ _ C I IS) as (B & _ & GG).
+    assert (I0 : Inv5 g0) by (apply (is_sensor5 g _ _ _ _ C I I5 IS)).
+    destruct (is_sensor_eff orc clock v _ _ _ _ _ C I RN IS) as (B & _ & GG).
     destruct b; cbn [negb].
     - specialize (GG eq_refl). subst g0. symmetry in B. destruct (guard_get clock _ _ _ B) as (nd & G & _). rewrite G.
       destruct (get_desired_value nd (m_child m) (m_sub m)) as [x|] eqn:DV.
@@ -376,8 +376,8 @@ Section Inv5.
       apply (Inv5_put_same (add_sensor g (m_node m)) (m_node m) nd); try reflexivity;
         [apply Inv_add_sensor; exact I|apply Inv5_add_sensor; assumption|exact G].
     - destruct (is_sensor g (m_node m) None) as [[g0 b]|e] eqn:IS; cbn [bind]; [|discriminate].
-      assert (I0 : Inv5 g0) by (apply (is_sensor5 g _ _ _ _ C I I5 (fun _ _ => RN) IS)).
-      destruct (is_sensor_eff orc clock v _ _ _ _ _ C I IS) as (B & _ & GG).
+      assert (I0 : Inv5 g0) by (apply (is_sensor5 g _ _ _ _ C I I5 IS)).
+      destruct (is_sensor_eff orc clock v _ _ _ _ _ C I RN IS) as (B & _ & GG).
       destruct b; cbn [negb].
       + specialize (GG eq_refl). subst g0. symmetry in B. destruct (guard_get clock _ _ _ B) as (nd & G & _). rewrite G.
         destruct (zhas (m_child m) (n_children nd)).
@@ -400,8 +400,8 @@ Section Inv5.
   Proof.
     intros C I I5 V Hf g1 rep. unfold node_attr_handler. pose proof (vld_node_range m V) as RN.
     destruct (is_sensor g (m_node m) None) as [[g0 b]|e] eqn:IS; cbn [bind]; [|discriminate].
-    assert (I0 : Inv5 g0) by (apply (is_sensor5 g _ _ _ _ C I I5 (fun _ _ => RN) IS)).
-    destruct (is_sensor_eff orc clock v _ _ _ _ _ C I IS) as (B & _ & GG).
+    assert (I0 : Inv5 g0) by (apply (is_sensor5 g _ _ _ _ C I I5 IS)).
+    destruct (is_sensor_eff orc clock v _ _ _ _ _ C I RN IS) as (B & _ & GG).
     destruct b; cbn [negb].
     - specialize (GG eq_refl). subst g0. symmetry in B. destruct (guard_get clock _ _ _ B) as (nd & G & _). rewrite G.
       intro H. inversion H; subst g1 rep. split; [|discriminate].
@@ -502,8 +502,8 @@ Section Inv5.
   Proof.
     intros C I I5 V g1 rep. unfold handle_heartbeat_response. pose proof (vld_node_range m V) as RN.
     destruct (is_sensor g (m_node m) None) as [[g0 b]|e] eqn:IS; cbn [bind]; [|discriminate].
-    assert (I0 : Inv5 g0) by (apply (is_sensor5 g _ _ _ _ C I I5 (fun _ _ => RN) IS)).
-    destruct (is_sensor_eff orc clock v _ _ _ _ _ C I IS) as (B & _ & GG).
+    assert (I0 : Inv5 g0) by (apply (is_sensor5 g _ _ _ _ C I I5 IS)).
+    destruct (is_sensor_eff orc clock v _ _ _ _ _ C I RN IS) as (B & _ & GG).
     destruct b; cbn [negb].
     - specialize (GG eq_refl). subst g0. symmetry in B. destruct (guard_get clock _ _ _ B) as (nd & G & _). rewrite G.
       destruct (handle_smartsleep_ok orc g (m_node m) nd I G) as (g2 & E2 & IG2 & C2 & nd2 & G2).
@@ -518,8 +518,8 @@ Section Inv5.
   Proof.
     intros C I I5 V g1 rep. unfold handle_pre_sleep. pose proof (vld_node_range m V) as RN.
     destruct (is_sensor g (m_node m) None) as [[g0 b]|e] eqn:IS; cbn [bind]; [|discriminate].
-    assert (I0 : Inv5 g0) by (apply (is_sensor5 g _ _ _ _ C I I5 (fun _ _ => RN) IS)).
-    destruct (is_sensor_eff orc clock v _ _ _ _ _ C I IS) as (B & _ & GG).
+    assert (I0 : Inv5 g0) by (apply (is_sensor5 g _ _ _ _ C I I5 IS)).
+    destruct (is_sensor_eff orc clock v _ _ _ _ _ C I RN IS) as (B & _ & GG).
     destruct b; cbn [negb].
     - specialize (GG eq_refl). subst g0. symmetry in B. destruct (guard_get clock _ _ _ B) as (nd & G & _). rewrite G.
       destruct (handle_smartsleep orc g nd) as [g2|e] eqn:E2; cbn [bind]; [|discriminate].
@@ -611,8 +611,8 @@ Section Inv5.
   Proof.
     intros C I I5 W V Ty g1 rep. unfold handle_stream. pose proof (vld_node_range m V) as RN.
     destruct (is_sensor g (m_node m) None) as [[g0 b]|e] eqn:IS; cbn [bind]; [|discriminate].
-    assert (I0 : Inv5 g0) by (apply (is_sensor5 g _ _ _ _ C I I5 (fun _ _ => RN) IS)).
-    destruct (is_sensor_eff orc clock v _ _ _ _ _ C I IS) as (B & _ & GG).
+    assert (I0 : Inv5 g0) by (apply (is_sensor5 g _ _ _ _ C I I5 IS)).
+    destruct (is_sensor_eff orc clock v _ _ _ _ _ C I RN IS) as (B & _ & GG).
     destruct b; cbn [negb]; [|intro H; inversion H; subst g1 rep; split; [exact I0|discriminate]].
     specialize (GG eq_refl). subst g0.
     assert (RS : between 0 (max_sub v 4) (m_sub m) = true).
@@ -667,7 +667,7 @@ Section Inv5.
     - (* discover response *) intros g1 rep. unfold handle_discover_response.
       destruct (is_sensor g (m_node m) None) as [[g0 b]|e] eqn:IS; cbn [bind]; [|discriminate].
       intro H. inversion H; subst g1 rep. split; [|discriminate]. cbn [fst].
-      apply (is_sensor5 g _ _ _ _ C I I5 (fun _ _ => RN) IS).
+      apply (is_sensor5 g _ _ _ _ C I I5 IS).
     - apply node_attr5; try assumption. intros; repeat split; reflexivity.
     - apply handle_pre_sleep5; assumption.
     - intros g1 rep H. inversion H; subst g1 rep. split; [exact I5|discriminate].
@@ -738,13 +738,12 @@ Section Inv5.
   Definition carriable (x : pyval) : Prop := wire_ok (py_str x) = true.
 
   Lemma set_child_value5 g sid cid vt x mt a : cfgv v g -> Inv orc g -> Inv5 g -> carriable x ->
-    (v_ge20 v = true -> zhas sid (g_sensors g) = false -> 0 <= sid <= 255) ->
     forall g', set_child_value orc g sid cid vt x mt a = Ok g' -> Inv5 g'.
   Proof.
-    intros C I I5 CX R g'. unfold set_child_value.
+    intros C I I5 CX g'. unfold set_child_value.
     destruct (is_sensor g sid (Some cid)) as [[g0 b]|e] eqn:IS; cbn [bind]; [|discriminate].
-    assert (I0 : Inv5 g0) by (apply (is_sensor5 g _ _ _ _ C I I5 R IS)).
-    destruct (is_sensor_eff orc clock v _ _ _ _ _ C I IS) as (B & _ & GG).
+    assert (I0 : Inv5 g0) by (apply (is_sensor5 g _ _ _ _ C I I5 IS)).
+    destruct (is_sensor_eff_any orc clock v _ _ _ _ _ C I IS) as (B & _ & GG).
     destruct b; cbn [negb]; [|intro H; inversion H; subst g'; exact I0].
     specialize (GG eq_refl). subst g0. symmetry in B. destruct (guard_get clock _ _ _ B) as (nd & G & _). rewrite G.
     pose proof (get_node_ok orc g _ _ I G) as [K _]. simpl in K.
@@ -823,7 +822,7 @@ Section Inv5.
   (* ---- steps and reachable states ---- *)
   Definition op_ok5 (o : op) : Prop :=
     match o with
-    | SetChild sid _ _ x _ _ => carriable x /\ (v_ge20 v = true -> 0 <= sid <= 255)
+    | SetChild _ _ _ x _ _ => carriable x
     | UpdateFw _ _ _ bin => image_ok bin
     | _ => True
     end.
@@ -836,9 +835,8 @@ Section Inv5.
     intros C I I5 O. destruct o as [l| |s c vt x mt a|ns t x b|b]; simpl.
     - apply recv5; assumption.
     - apply pump5; assumption.
-    - destruct O as [CX R].
-      destruct (set_child_value orc g s c vt x mt a) as [g'|e] eqn:E; [|apply Inv5_emit; [exact I5|exact Logic.I]].
-      apply (set_child_value5 g s c vt x mt a C I I5 CX (fun G _ => R G) g' E).
+    - destruct (set_child_value orc g s c vt x mt a) as [g'|e] eqn:E; [|apply Inv5_emit; [exact I5|exact Logic.I]].
+      apply (set_child_value5 g s c vt x mt a C I I5 O g' E).
     - destruct (update_fw g ns t x b) as [g'|e] eqn:E; [|apply Inv5_emit; [exact I5|exact Logic.I]].
       apply (update_fw5 g ns t x b I I5 O g' E).
     - destruct I5 as (A & B & C5 & D). repeat split; assumption.
@@ -867,35 +865,37 @@ Proof.
   split; [rewrite (gvalidate_vld orc v g x C); exact V|]. apply (vld_node_range orc v x V).
 Qed.
 
-(* controller calls of a history: values the wire format can carry; firmware images as in C01;
-   and - the side condition found here - on a >= 2.0 gateway the node id given to
-   set_child_value must be a node id (0..255) *)
-Definition op_wire (cf : config) (o : op) : Prop :=
+(* controller calls of a history: values the wire format can carry; firmware images as in C01.
+   The node id given to set_child_value is ARBITRARY: is_sensor asks only a node id in 0..255 to
+   present itself. *)
+Definition op_wire (o : op) : Prop :=
   match o with
-  | SetChild sid _ _ x _ _ => carriable x /\ (cf_ge20 cf = true -> 0 <= sid <= 255)
+  | SetChild _ _ _ x _ _ => carriable x
   | UpdateFw _ _ _ bin => image_ok bin
   | _ => True
   end.
 
-Lemma op_wire_ok5 v cf o : cf_ge20 cf = ge20 v -> op_wire cf o -> op_ok5 v o.
-Proof.
-  intros G. destruct o; simpl; try tauto. intros [A B]. split; [exact A|].
-  intro H. apply B. rewrite G, ge20_eq. exact H.
-Qed.
+Lemma op_wire_reading o :
+  op_wire o <-> match o with
+                | SetChild _ _ _ x _ _ => carriable x
+                | UpdateFw _ _ _ b => image_ok b
+                | _ => True
+                end.
+Proof. destruct o; simpl; tauto. Qed.
 
 Theorem reachable_Inv5 orc clock v cf ops :
-  cf_tab cf = tab_of v -> cf_ge20 cf = ge20 v -> Forall (op_wire cf) ops ->
+  cf_tab cf = tab_of v -> cf_ge20 cf = ge20 v -> Forall op_wire ops ->
   let g := run orc clock (gw_init cf) ops in Inv5 orc v g /\ Inv orc g /\ cfgv v g.
 Proof.
   intros T G F. apply (run5 orc clock v ops (gw_init cf)).
   - split; assumption.
   - apply Inv_init.
   - apply Inv5_init.
-  - eapply Forall_impl; [|exact F]. intro o. apply op_wire_ok5. exact G.
+  - exact F.
 Qed.
 
-Theorem emitted_canonical_valid_partial orc clock cf ops :
-  cfg_ok cf -> Forall (op_wire cf) ops ->
+Theorem emitted_canonical_valid orc clock cf ops :
+  cfg_ok cf -> Forall op_wire ops ->
   let g := run orc clock (gw_init cf) ops in
   (forall l, In (ESend l) (g_log g) -> line_ok orc g l) /\
   (forall l, In (JSend l) (g_jobs g) -> line_ok orc g l) /\
